@@ -10,6 +10,11 @@ sys.path.insert(0, HERE)
 CHECKS = {}   # filled by vf/props modules that exist: id -> (category, text, note, technique, design_ref)
 
 TABLE = {
+    "C08": ("exploration",
+            "The state every instruction has after the real ArchSemantics.add_semantics (micro-ops, pressure, latency, latency without load, throughput, flags) is compared with a reference composition computed from the generated model/ISA-database dicts, on kernels that mix several composed, direct, register-only and unknown instructions in random order (fresh model object per kernel, so in-model pollution by one instruction is seen by the next); unknown instructions are additionally removed and the kernel re-analysed to show they change nothing; a curated real vocabulary on shipped models checks order/repetition independence and that pressure is the uniform split of the reported micro-ops.",
+            "Trusted: vf/ref_compose.py and vf/ref_match.py; register forms without numeric data and wildcard register classes at the memory position are don't-care.",
+            "runtime monitoring: post-state snapshots vs reference composition model; metamorphic re-analysis",
+            "C08"),
     "C07": ("exploration",
             "Every get_instruction result is observed for instructions rendered from (a) random entry patterns of synthetic models (all operand kinds, wildcards, duplicates, shadowing, multi-name entries) incl. near misses and suffix fall-backs through the real ArchSemantics.assign_tp_lt, and (b) each entry of all 17 shipped models and both ISA databases (every entry in thorough), all parsed by the real parser; a three-valued reference matcher on plain YAML/AST descriptors decides soundness, completeness and first-match order.",
             "Trusted: vf/ref_match.py (the MUST / MUST-NOT / DON'T-CARE table of DESIGN.md section 2), the renderers of vf/gen_lookup.py; lookups whose text the real parser did not recover as rendered are skipped and counted (parser properties C09/C10).",
